@@ -22,6 +22,9 @@ type TaintConfig struct {
 	Sanitized func(ins ssa.Instruction) bool
 	// BoundFields are field names whose stores are sinks and whose loads are bound expressions (never tainted).
 	BoundFields map[string]bool
+	// OutOfScopeEdge reports that the i-th incoming edge of a φ-node lies on a path the property does not quantify
+	// over (with the reason); on such an edge a bound may be vacuous (the value bounds itself).
+	OutOfScopeEdge func(phi *ssa.Phi, i int) (string, bool)
 }
 
 // TaintSink is one use of a wire-derived length in a dangerous position.
@@ -674,6 +677,30 @@ func (st *taintState) applyCond(chain []chainElem, x ssa.Value, op token.Token, 
 			case token.LEQ, token.LSS:
 				*hi = true
 				*why = append(*why, fmt.Sprintf("guard %s %s %s", x.Name(), op, describeBound(y)))
+				if e.unsigned && crossed {
+					*lo = true
+				}
+			}
+		} else if ph, isPhi := y.(*ssa.Phi); isPhi && (op == token.LEQ || op == token.LSS) {
+			// a bound chosen per path: every alternative is a bound, except on paths outside the property's scope
+			all, notes := true, []string{}
+			for i, alt := range ph.Edges {
+				switch {
+				case st.cfg.IsBoundExpr(alt) || st.isBoundedValue(alt):
+				case st.cfg.OutOfScopeEdge != nil && sameExpr(stripConv(alt), xs):
+					if why2, ok := st.cfg.OutOfScopeEdge(ph, i); ok {
+						notes = append(notes, why2)
+					} else {
+						all = false
+					}
+				default:
+					all = false
+				}
+			}
+			if all {
+				*hi = true
+				*why = append(*why, fmt.Sprintf("guard %s %s a bound chosen per path", x.Name(), op))
+				*why = append(*why, notes...)
 				if e.unsigned && crossed {
 					*lo = true
 				}
